@@ -113,9 +113,17 @@ def lib_decrypt(blob, key, kind, wrapper=True):
                                                         "document": "INFO_DOCUM"}[kind]))
 
 
-def _roundtrip(out, n, seed, key, kind, wrapper):
+def _roundtrip(out, n, seed, key, kind, wrapper, content=None):
     pt = plaintext_of(n, seed)
     ctx = {"n": n, "kind": kind, "seed": seed}
+    if content is not None:
+        # the content is itself an encrypted file: of the same content under the same key and kind (a received file sent on as it
+        # is), under another key, or of another kind - content is content, it is encrypted like any other bytes
+        inner_key = key if content["key"] == "same" else bytes(reversed(key))
+        inner_kind = kind if content["kind"] == "same" else KINDS[(KINDS.index(kind) + 1) % 4]
+        pt = ref_encrypt(pt, inner_key, inner_kind)
+        ctx["content"] = "an encrypted file (%s key, %s kind)" % (content["key"], content["kind"])
+        out.label("content_is_an_encrypted_file", "content_is_an_encrypted_file:%s_key_%s_kind" % (content["key"], content["kind"]))
     try:
         blob = lib_encrypt(pt, key, kind, wrapper)
     except Exception as e:
@@ -264,7 +272,7 @@ def run_case(case):
     if sub == "rt":
         out.label("rt", "kind=" + kind, "aligned" if n % 16 == 0 else "unaligned",
                   "n=0" if n == 0 else "n<=64" if n <= 64 else "n<=4096" if n <= 4096 else "n>4096")
-        _roundtrip(out, n, seed, key, kind, bool(case.get("wrapper", 1)))
+        _roundtrip(out, n, seed, key, kind, bool(case.get("wrapper", 1)), case.get("content"))
         return out
     pt = plaintext_of(n, seed)
     blob = ref_encrypt(pt, key, kind)   # a ciphertext a real peer would send
@@ -360,6 +368,14 @@ def _enum_rt():
                     yield {"sub": "rt", "n": n, "kind": kind, "keyseed": keyseed, "seed": 3 if n % 3 else 1, "wrapper": wrapper}
 
 
+def _enum_nested():
+    for n in (0, 1, 16, 33):
+        for kind in range(4):
+            for ck in ("same", "other"):
+                for cd in ("same", "other"):
+                    yield {"sub": "rt", "n": n, "kind": kind, "keyseed": 1, "seed": 3, "wrapper": n % 2, "content": {"key": ck, "kind": cd}}
+
+
 def _enum_tamper():
     for n in (0, 1, 15, 16, 17, 31, 32, 33, 48):
         for kind in range(4):
@@ -389,8 +405,10 @@ def plan(tier):
         st.builds(lambda b, d: max(0, 16 * b + d), st.integers(0, maxn // 16), st.sampled_from([-1, 0, 0, 1])),
     )
     keys = st.binary(min_size=32, max_size=32).map(lambda b: b.hex())
-    rt = st.builds(lambda n, k, key, s, w: {"sub": "rt", "n": n, "kind": k, "key": key, "seed": s, "wrapper": w},
-                   n_st, st.integers(0, 3), keys, st.integers(0, 50), st.integers(0, 1))
+    content = st.one_of(st.none(), st.none(), st.none(), st.fixed_dictionaries({"key": st.sampled_from(["same", "same", "other"]),
+                                                                                "kind": st.sampled_from(["same", "same", "other"])}))
+    rt = st.builds(lambda n, k, key, s, w, c: dict({"sub": "rt", "n": n, "kind": k, "key": key, "seed": s, "wrapper": w}, **({"content": c} if c else {})),
+                   n_st, st.integers(0, 3), keys, st.integers(0, 50), st.integers(0, 1), content)
     small = st.integers(0, 200)
     tam = st.one_of(
         st.builds(lambda n, k, key, p, m: {"sub": "tamper", "n": n, "kind": k, "key": key, "pos": p, "mask": m},
@@ -411,7 +429,7 @@ def plan(tier):
     return {
         "shards": 16,
         "enumerations": [("lengths_0_64", _enum_rt), ("tamper_positions", _enum_tamper), ("shared_one_preemption", _enum_shared),
-                         ("optimised_interpreter", _enum_optimised)],
+                         ("optimised_interpreter", _enum_optimised), ("content_is_an_encrypted_file", _enum_nested)],
         "exhaustive": ["lengths_0_64", "tamper_positions", "shared_one_preemption"],
         "strategies": [("roundtrip", rt, 400 if quick else 6000), ("tamper", tam, 600 if quick else 10000),
                        ("shared_object", shared, 300 if quick else 4000),
